@@ -2,13 +2,16 @@ package main
 
 // C04: real-time correspondence for the Waiter and the fire/discard decision of the instance loop.
 //
-//	mode=waiter toks=<ms,...> sleeps=<ms,...> [cancel=<ms>] [unit=us] [slownext=<us>]
+//	mode=waiter toks=<ms,...> sleeps=<ms,...> [cancel=<ms>] [unit=us] [slownext=<us>] [then=<ms,...>]
 //	    (tokens may lie minutes, days or centuries in the past - up to 250 years: instants more than 292 years apart are outside
 //	    the claim, Time.Sub saturates there - and more than a second in the future; a case may have hundreds of tokens)
 //	    the real coreutil.Waiter over a scripted schedule whose i-th token is T0+toks[i] ms (T0 = time.Now() at the
 //	    start of the case; tokens seconds in the past / fractions of a second in the future), sleeping sleeps[i] ms
 //	    before the i-th Wait (unit=us: both in microseconds). slownext: the schedule needs that long to hand a token out
 //	    (a contended shared schedule); the pick-up instant is taken when it returns.
+//	    then=: when the first Waiter is through (or cancelled) and the last of its tokens has passed, a SECOND, new Waiter with a
+//	    context of its own runs over the tokens of `then` on another goroutine: nothing of the first (its timer, its state) may
+//	    reach the second.
 //	mode=engine inst=<n> prof=<once:N|const:OPS:MS|line:..|step:..|pause:MS>[+...] resp=<ms,...> discard=<0|1> [perinst=1] [startup=<profile>]
 //	    (OPS may be a fraction: tokens more than 2 s apart; pause:MS = const 0 rps for MS ms: a gap in the profile)
 //	    the real engine (engine.New(...).Run) with n instances (startup once(n), or the given startup schedule: instances are
@@ -318,7 +321,41 @@ func runWaiter(m map[string]string) string {
 			rec.decided('F')
 		}
 	}
-	return fmt.Sprintf("end=%d err=nil total=%d bad=0 net=- tag=- seq=%s", rec.clk.Now(), len(toks), rec.render())
+	then := parseMs(m["then"])
+	if len(then) > 0 {
+		// let the last token of the first waiter pass (a sleep that was cancelled has its deadline behind it)
+		last := int64(0)
+		for _, t := range toks {
+			if t > last {
+				last = t
+			}
+		}
+		if d := time.Duration(last)*unit + 50*time.Millisecond - time.Duration(rec.clk.Now()); d > 0 {
+			time.Sleep(d)
+		}
+		ss2 := &scriptSched{}
+		for _, t := range then {
+			ss2.toks = append(ss2.toks, addUnits(rec.clk.T0, t, unit))
+		}
+		done := make(chan struct{})
+		go func() {
+			defer close(done)
+			ctx2 := context.Background()
+			w2 := coreutil.NewWaiter(&recSched{Schedule: ss2, rec: rec})
+			for range then {
+				if !w2.Wait(ctx2) {
+					continue
+				}
+				if w2.IsSlowDown(ctx2) {
+					rec.decided('D')
+				} else {
+					rec.decided('F')
+				}
+			}
+		}()
+		<-done
+	}
+	return fmt.Sprintf("end=%d err=nil total=%d bad=0 net=- tag=- seq=%s", rec.clk.Now(), len(toks)+len(then), rec.render())
 }
 
 func runEngine(m map[string]string) string {
@@ -525,7 +562,20 @@ func genWaiterCancel(r *rand.Rand) string {
 			clock += -late
 		}
 	}
-	return fmt.Sprintf("mode=waiter toks=%s sleeps=%s cancel=%d", joinInts(toks), joinInts(sleeps), 50+r.Intn(int(clock)+200))
+	s := fmt.Sprintf("mode=waiter toks=%s sleeps=%s cancel=%d", joinInts(toks), joinInts(sleeps), 50+r.Intn(int(clock)+200))
+	if r.Intn(2) == 0 {
+		// a second waiter after the cancelled one: a due token, then two it has to sleep for
+		last := int64(0)
+		for _, t := range toks {
+			if t > last {
+				last = t
+			}
+		}
+		a := last + int64(r.Intn(100))
+		b := a + int64(150+r.Intn(300))
+		s += fmt.Sprintf(" then=%d,%d,%d", a, b, b+int64(100+r.Intn(1200)))
+	}
+	return s
 }
 
 // latenesses (ms) at which a lateness kept in a narrower integer wraps around or changes sign: 2^15, 2^16, 2^31, 2^32 of
@@ -817,6 +867,8 @@ func gen(r *rand.Rand, tier string) []string {
 	out = append(out, "mode=waiter toks=-1995,-1990,-1997 sleeps=0,0,0 slownext=8000")
 	// cancellation while sleeping on the timer
 	out = append(out, "mode=waiter toks=-100,400,900 sleeps=0,0,0 cancel=600")
+	// ... and a second, new waiter afterwards, when the cancelled sleep's deadline has passed: it sleeps for its own tokens
+	out = append(out, "mode=waiter toks=-100,600 sleeps=0,0 cancel=300 then=900,1400", "mode=waiter toks=200,1500 sleeps=0,0 cancel=700 then=1450,1800,3000")
 	return out
 }
 
@@ -883,6 +935,9 @@ func class(in, obs string) string {
 		if _, ok := m["cancel"]; ok {
 			c += "/cancel"
 		}
+		if m["then"] != "" {
+			c += "/second-waiter"
+		}
 	}
 	if strings.Contains(seq, ":D") {
 		c += "/discards"
@@ -929,7 +984,7 @@ func main() {
 			"1..16 instances, shared or per-instance once/const/line/step/composite profiles (also sparse ones and ones with gaps) from the real constructors, response-time histories of 1..5 entries from " +
 			"0..4 s (slower than the inter-request interval and than 2 s), discard_overflow on and off, some runs cancelled, instances started at once or one after the other (late starters); (b) the bare coreutil.Waiter on scripted schedules: " +
 			"tokens seconds in the past / up to 0.4 s in the future relative to time.Now(), real sleeps between calls, lateness far from, a few ms and a few hundred µs around " +
-			"the 2 s threshold, minutes / days / up to 250 years late (also at the values where a narrower integer wraps), timer sleeps of more than a second, hundreds of tokens per case, cancellation during the timer sleep; (c) the pandora binary with yaml / json / toml / stdin configs (1..3 pools with equal or different settings, upper-case key, yaml merge key) that omit / set discard_overflow against a slow in-process HTTP " +
+			"the 2 s threshold, minutes / days / up to 250 years late (also at the values where a narrower integer wraps), timer sleeps of more than a second, hundreds of tokens per case, cancellation during the timer sleep, a second new Waiter after a cancelled one; (c) the pandora binary with yaml / json / toml / stdin configs (1..3 pools with equal or different settings, upper-case key, yaml merge key) that omit / set discard_overflow against a slow in-process HTTP " +
 			"target that counts the requests it receives. Every decision is judged against the measured [pick-up, action] interval. non-trivial = at least one token drawn (proc: the process ran)",
 	})
 }
